@@ -66,6 +66,11 @@ function addn(n, x):
     probe(104, n)
     return n + x
 endfunction
+function one(x):
+    return x + 1
+endfunction
+function none():
+endfunction
 '''
 
 BODIES = [
@@ -81,6 +86,8 @@ BODIES = [
     "data = arrayNew(objectNew('a', 1), objectNew('a', 5), objectNew('a', 9))\nr1 = dataFilter(data, 'isBig(a + vv)', objectNew('vv', 1))\nprobe(115, arrayLength(r1))\nprobe(116, 0)",
     "data = arrayNew(objectNew('a', 1), objectNew('a', 5))\ndataCalculatedField(data, 'b', 'work(a)')\nprobe(117, 0)\ndataCalculatedField(data, 'c', 'work(a + vv)', objectNew('vv', 1))\nprobe(118, 0)",
     "l = arrayNew(objectNew('a', 1), objectNew('a', 2))\nr = arrayNew(objectNew('a', 1, 'b', 3), objectNew('a', 2, 'b', 4))\nj1 = dataJoin(l, r, 'addn(a, 0)')\nprobe(119, arrayLength(j1))\nj2 = dataJoin(l, r, 'addn(a, vv)', null, false, objectNew('vv', 0))\nprobe(120, arrayLength(j2))",
+    # functions whose whole body is one return / nothing: every executed statement counts
+    'a1 = one(1)\na2 = one(one(a1))\nnone()\nprobe(123, one(a2))\narr = arrayNew(3, 1, 2)\nprobe(124, arrayIndexOf(arr, one))\nprobe(125, none())',
     # never ending
     'i = 0\nwhile true:\n    probe(121, i)\n    i = i + 1\nendwhile',
     'function rec(n):\n    probe(122, n)\n    return rec(n + 1)\nendfunction\nrec(0)',
